@@ -222,6 +222,7 @@ static std::vector<std::string> hist_gen(const GenArgs &ga) {
     bool foreign = tgt == "c" || tgt == "c64x-c" || tgt == "neon" || tgt == "mips" || tgt == "altivec";
     int maxsize = tgt == "mmx" ? 4 : 8;
     std::string spec = gen_spec(sw, foreign ? 6 : maxlen, maxsize, use_corpus && tgt != "mmx", true);
+    if (spec == "fixed:regpressure") spec = "fixed:addw";   // that program is for mmx register exhaustion only (see the compile op)
     unsigned long fmask = 0xffffffffUL;
     if ((tgt == "sse" || tgt == "mmx") && sw.chance(1, 3)) {
       // drop a random subset of optional CPU feature bits (bits 1.. of the flag word), keep base + 64bit/frame bits
@@ -565,8 +566,10 @@ static void check_after_op(State &st, const Layout *before, bool was_alloc_op, c
       c.count("probe.new_region");
     }
   }
-  if (st.O("fd") && fs::enabled() && fs::open_fds() != 0)
-    c.violation("fd-leak", "descriptor-open-after-op", strf("%d simulated descriptor(s) still open after the operation (%s)", fs::open_fds(), fs::open_fd_desc().c_str()));
+  // A descriptor may legitimately be kept for as long as a mapping made from it lives (bounded by the number
+  // of regions); one that is open with no mapping left is leaked -- every failed attempt would add another.
+  if (st.O("fd") && fs::enabled() && fs::open_unmapped_fds() != 0)
+    c.violation("fd-leak", "descriptor-open-after-op", strf("%d simulated descriptor(s) still open after the operation although no mapping made from them is alive (%s)", fs::open_unmapped_fds(), fs::open_fd_desc().c_str()));
 }
 
 static void layout_probes(Child &c, const Layout &before, const Layout &after, const char *what) {
@@ -799,8 +802,8 @@ static void hist_run(const std::vector<std::string> &plan, Child &c) {
         c.violation("classification", "probe-failed-but-jit-enabled", "no executable mapping could be obtained at init but backup/emulate were not forced");
     }
   }
-  if (st.O("fd") && fs::open_fds() != 0)
-    c.violation("fd-leak", "descriptor-open-after-init", strf("%d simulated descriptor(s) still open after orc_init", fs::open_fds()));
+  if (st.O("fd") && fs::open_unmapped_fds() != 0)
+    c.violation("fd-leak", "descriptor-open-after-init", strf("%d simulated descriptor(s) still open after orc_init although no mapping made from them is alive", fs::open_unmapped_fds()));
   c.state(fnv(ist.trace));
 
   struct CycleStat { size_t bytes, blocks; int regions, used, chunks; };
@@ -1168,8 +1171,8 @@ static void hist_run(const std::vector<std::string> &plan, Child &c) {
   }
   if (st.O("fd")) {
     int now = count_fds();
-    if (now != st.fd_count_start)
-      c.violation("fd-leak", "proc-self-fd-count", strf("/proc/self/fd had %d entries before orc_init and %d at the end of the run", st.fd_count_start, now));
+    if (now != st.fd_count_start + fs::open_fds())
+      c.violation("fd-leak", "proc-self-fd-count", strf("/proc/self/fd had %d entries before orc_init and %d at the end of the run, %d of which are accounted for by live code regions", st.fd_count_start, now, fs::open_fds()));
   }
   c.count("ops", ops.size() * cycles);
   c.note(strf("final: regions=%d live_programs=%zu", cstats.empty() ? -1 : cstats.back().regions, st.progs.size()));
